@@ -25,29 +25,28 @@ and `conversion/mod.rs` is a value `Outcome.panic site`, every loop takes fuel a
   F02 history (type a partial syllable under the fuzzy engine, switch to the standard engine, Enter) and
   the F03 history (`f03_history_panics`: type a syllable, remove its only word, Enter) in a small
   environment satisfying `EnvOK`.
+* `C01_plain_histories` — histories made of key events (any code / modifiers), `select(n)`, start / cancel
+  selecting, `commit`, `clear`, `ack`, layout switches and `learn_phrase` need NO exclusion: they never panic or hang.
 * `initial_inv` — a fresh editor satisfies `EditorInv`.
 
 ## Coverage (`Covered`) — level: partial
 
-Covered: every key event (all key codes / modifiers / options) in the states `Entering`,
-`EnteringSyllable` and `Highlighting`, including the keys that OPEN a candidate list (`PhraseSelector::init`
-terminates, selector invariant established), auto-commit, dictionary flush; every key under an open
-**phrase** or **special-symbol** candidate list (`Selecting::next`: paging, Down/Space with
-`PhraseSelector::next` — terminates, wraps at most once —, j/k with `retarget`, digits with
-`Selecting::select`: the chosen phrase is a valid selection, so the composition invariant survives);
-under an open **symbol table** every key whose arm does not read the table (all Ctrl / Shift combinations,
-Backspace, CapsLock, Up, Esc, Del, keys without a meaning there); and every other entry point in every
-state: `select(n)` (not on a symbol table), `start_selecting`, `cancel_selecting`, `commit`, `clear`, `ack`,
-`clear_syllable_editor`, `set_editor_options`, `set_syllable_editor`, `set_conversion_engine`,
-`learn_phrase`, `unlearn_phrase`.
+Covered: every key event (all key codes / modifiers / options) in ALL four states — `Entering`,
+`EnteringSyllable`, `Highlighting`, and `Selecting` with a phrase list, a special-symbol list or a symbol
+table (`Selecting::next`: paging, Down/Space with `PhraseSelector::next` — terminates, wraps at most
+once —, j/k with `retarget`, digits with `Selecting::select`: the chosen phrase is a valid selection, so the
+composition invariant survives; `SymbolSelector::{menu,select}` index only existing tables) — including the
+keys that open a candidate list (`PhraseSelector::init` terminates), auto-commit and the dictionary flush;
+and every other entry point in every state: `select(n)`, `start_selecting`, `cancel_selecting`, `commit`,
+`clear`, `ack`, `clear_syllable_editor`, `set_editor_options`, `set_syllable_editor`,
+`set_conversion_engine`, `learn_phrase`, `unlearn_phrase`, and `jump_*` outside a phrase list.
 **Not yet covered by a theorem** (`C01_target` is the statement without `Covered`):
-(1) `jump_to_{first,last,next,prev}_selection_point` while a *phrase* candidate list is open (on other lists
-and outside a list they return `Err` and are covered);
-(2) while a **symbol table** (`SymbolSelector`: `` ` ``, Ctrl+0/1, or Down on a symbol without special
-variants) is open: `select(n)` and the keys Down, Space, j, k, Left, Right, PageUp, PageDown, digits — their
-panic sites (`symsel-table-index`, `symsel-empty-category-name`) need a well-formedness hypothesis on the
-loaded `symbols.dat`.  Both are covered by the correspondence (model = code per step, including which
-steps panic) and the crash campaigns only.
+`jump_to_{first,last,next,prev}_selection_point` while a *phrase* candidate list is open
+(`chewing_cand_list_{first,last,next,prev}`); it needs an invariant relating the selector's range to the
+cursor position it was opened at.  Covered by the correspondence (model = code per step, including which
+steps panic) and the crash campaigns only.  Likewise outside the theorems: the C glue `capi/src/io.rs`.
+The symbol tables enter through the hypothesis `SymWF` (well-formed `symbols.dat` as loaded: leaf
+categories have a name, table categories point to an existing table), part of `EditorInv`.
 
 The conversion engines enter through `EnvOK.convert_ok`, which is C03's `nonempty_result` + `alt_chain` +
 `one_char_per_symbol` + `fuel_suffices` (proved there for the engine model under `CompValid`, a word per
@@ -60,7 +59,7 @@ open Chewing Chewing.C04 Chewing.C05 Chewing.C06
 variable {D L : Type} {env : Env D L} {G : D → Prop}
 
 /-- **C01, one operation (partial).**  `hv`: arguments the C layer validates; `hk`: not the known class
-    F02/F03; `hc`: not `jump_*` under an open list, not a table-reading key / `select` on an open symbol table. -/
+    F02/F03; `hc`: not `jump_to_*_selection_point` on an open phrase list. -/
 theorem C01_partial (hE : EnvOK env G) (e : Editor D L) (op : Op L) (hi : EditorInv env G e) (hv : OpValid op)
     (hk : ¬ Known env e op) (hc : Covered e op) :
     ∃ e', e.apply env op = .ok e' ∧ EditorInv env G e' :=
@@ -92,6 +91,29 @@ theorem C01_partial_run (hE : EnvOK env G) (ops : List (Op L)) :
     obtain ⟨e1, h1, hi1⟩ := apply_ok hE hi op hv hk hc
     obtain ⟨e2, h2, hi2⟩ := ih e1 hi1 (hrest e1 h1)
     exact ⟨e2, by simp only [Editor.run]; rw [h1]; exact h2, hi2⟩
+
+/-- operations that can never be in the known class and are always covered: key events (any code,
+    any modifiers), `select(n)`, `start_selecting`, `cancel_selecting`, `commit`, `clear` (reset), `ack`,
+    `clear_syllable_editor`, `set_syllable_editor` (keyboard-layout switch at any moment), `learn_phrase` -/
+def Plain : Op L → Prop
+  | .key _ | .select _ | .startSelecting | .cancelSelecting | .commit | .clear | .ack | .clearSyl
+  | .setLayout _ | .learn _ _ => True
+  | _ => False
+
+theorem allowed_of_plain (ops : List (Op L)) : ∀ e : Editor D L, (∀ op ∈ ops, Plain op) → Allowed env e ops := by
+  induction ops with
+  | nil => intro _ _; trivial
+  | cons op ops ih =>
+    intro e h
+    have hp := h op (List.mem_cons_self ..)
+    have hrest := fun e' (_ : e.apply env op = .ok e') => ih e' (fun o ho => h o (List.mem_cons_of_mem _ ho))
+    cases op <;> first | exact ⟨trivial, fun hk => hk, trivial, hrest⟩ | exact absurd hp (fun hh => hh)
+
+/-- **C01 for histories of keys, candidate choices, commits, resets, layout switches and learn calls**:
+    from every state satisfying the invariant NO such history panics or hangs — no exclusion at all -/
+theorem C01_plain_histories (hE : EnvOK env G) (e : Editor D L) (hi : EditorInv env G e) (ops : List (Op L))
+    (hp : ∀ op ∈ ops, Plain op) : ∃ e', e.run env ops = .ok e' ∧ EditorInv env G e' :=
+  C01_partial_run hE ops e hi (allowed_of_plain ops e hp)
 
 /-- a fresh editor (empty buffer, any dictionary that is well formed, any layout, coupled options) satisfies the invariant -/
 theorem initial_inv (sh : Shared D L) (hg : G sh.dict) (hcom : sh.com = {})
@@ -277,16 +299,11 @@ theorem allowed_cons {e : Editor D L} {op : Op L} {ops : List (Op L)} (h1 : OpVa
     (h3 : Covered e op) (h4 : ∀ e', e.apply env op = .ok e' → Allowed env e' ops) : Allowed env e (op :: ops) :=
   ⟨h1, h2, h3, h4⟩
 
-theorem allowed_two_keys {e : Editor D L} {k1 k2 : KeyEvent} (h0 : e.state = .entering)
-    (h1 : ∃ x, e.apply env (.key k1) = .ok x ∧ x.state = .enteringSyllable) {rest : List (Op L)}
+theorem allowed_two_keys {e : Editor D L} {k1 k2 : KeyEvent} {rest : List (Op L)}
     (hr : ∀ e1 e2, e.apply env (.key k1) = .ok e1 → e1.apply env (.key k2) = .ok e2 → Allowed env e2 rest) :
-    Allowed env e (.key k1 :: .key k2 :: rest) := by
-  refine allowed_cons trivial (fun h => h) (fun s hs => by rw [h0] at hs; cases hs) ?_
-  intro e1 he1
-  obtain ⟨x, hx, hst⟩ := h1
-  have := ok_unique hx he1
-  subst this
-  exact allowed_cons trivial (fun h => h) (fun s hs => by rw [hst] at hs; cases hs) (fun e2 he2 => hr x e2 he1 he2)
+    Allowed env e (.key k1 :: .key k2 :: rest) :=
+  allowed_cons trivial (fun h => h) trivial fun e1 he1 =>
+    allowed_cons trivial (fun h => h) trivial fun e2 he2 => hr e1 e2 he1 he2
 
 /-- the engine switch of the F02 history is in the known class: the state right before it satisfies
     the invariant, and `Known` holds of the switch -/
@@ -294,7 +311,7 @@ theorem f02_is_known :
     ∃ e, (fuzzyEditor []).run toyEnv [.key keyH, .key keyH] = .ok e ∧ EditorInv toyEnv (fun _ => True) e ∧
       Known toyEnv e (.setEngine .chewing) := by
   obtain ⟨e, he, hi⟩ := C01_partial_run toyEnv_ok [.key keyH, .key keyH] (fuzzyEditor []) (fuzzyEditor_inv [])
-    (allowed_two_keys rfl ⟨_, rfl, rfl⟩ (fun _ _ _ _ => trivial))
+    (allowed_two_keys (fun _ _ _ _ => trivial))
   refine ⟨e, he, hi, ?_⟩
   obtain ⟨e0, he0, hs0, hd0⟩ : ∃ e0, (fuzzyEditor []).run toyEnv [.key keyH, .key keyH] = .ok e0 ∧
       e0.shared.com.inner.symbols = [.syl 0] ∧ e0.shared.dict = [] := ⟨_, rfl, rfl, rfl⟩
@@ -313,7 +330,7 @@ example : ∃ e', (stdEditor [3]).run toyEnv [.key keyJ, .key keyJ, .startSelect
     EditorInv toyEnv (fun _ => True) e' ∧ e'.shared.commitBuf = [3] := by
   obtain ⟨e', he, hi⟩ := C01_partial_run toyEnv_ok [.key keyJ, .key keyJ, .startSelecting, .cancelSelecting, .commit]
     (stdEditor [3]) (stdEditor_inv [3])
-    (allowed_two_keys rfl ⟨_, rfl, rfl⟩ (fun _ e2 _ _ =>
+    (allowed_two_keys (fun _ e2 _ _ =>
       allowed_cons trivial (fun h => h) trivial (fun e3 _ =>
         allowed_cons trivial (fun h => h) trivial (fun e4 _ =>
           allowed_cons trivial (fun h => h) trivial (fun _ _ => trivial)))))
@@ -322,6 +339,21 @@ example : ∃ e', (stdEditor [3]).run toyEnv [.key keyJ, .key keyJ, .startSelect
   have := ok_unique he0 he
   subst this
   exact ⟨_, he, hi, hc0⟩
+
+def keyDown : KeyEvent := { index := 57, code := KC.down, unicode := 65533 }
+def key1 : KeyEvent := { index := 1, code := KC.n1, unicode := 49 }
+
+/-- keys only: type a syllable, Down (opens the phrase list), Down again (`PhraseSelector::next`), `1`
+    (chooses the first candidate: a selection is pushed), Enter: by `C01_plain_histories` -/
+example : ∃ e', (stdEditor [3]).run toyEnv [.key keyJ, .key keyJ, .key keyDown, .key keyDown, .key key1, .key keyEnter] = .ok e' ∧
+    EditorInv toyEnv (fun _ => True) e' :=
+  C01_plain_histories toyEnv_ok _ (stdEditor_inv [3]) _ (by intro op hop; simp only [List.mem_cons, List.not_mem_nil, or_false] at hop; rcases hop with rfl | rfl | rfl | rfl | rfl | rfl <;> trivial)
+
+/-- … and that history does what it says: the list opens, the choice is recorded, Enter commits it -/
+example : ∃ e1 s e2 e3, (stdEditor [3]).run toyEnv [.key keyJ, .key keyJ, .key keyDown] = .ok e1 ∧ e1.state = .selecting s ∧
+    e1.run toyEnv [.key keyDown, .key key1] = .ok e2 ∧ e2.shared.com.inner.selections.length = 1 ∧
+    e2.run toyEnv [.key keyEnter] = .ok e3 ∧ e3.shared.commitBuf = [3] :=
+  ⟨_, _, _, _, rfl, rfl, rfl, rfl, rfl, rfl⟩
 
 /-- the candidate list of that history really opens (so `PhraseSelector::init` is exercised) -/
 example : ∃ e' s, (stdEditor [3]).run toyEnv [.key keyJ, .key keyJ, .startSelecting] = .ok e' ∧ e'.state = .selecting s :=
